@@ -444,6 +444,19 @@ def run_bounded(ctx: Ctx) -> Report:
     extra_items = []
     for tag, n, edges, ms in structured_graphs(ctx.thorough):
         extra_items.append((n, edges, tag, ms, len(ms) == 3 and n <= 12, ctx.seed))
+    # larger seeded graphs for the exact method quickbb (its pruning rules only bite where min_fill is not
+    # already optimal, which needs >= 8 vertices) -- seeded change C10-m2 lives here
+    rb = ctx.rng("big-quickbb")
+    n_big = 1500 if ctx.thorough else 120
+    for nb in (8, 9, 10):
+        pb = pairs(nb)
+        for _ in range(n_big):
+            dens = rb.choice([0.3, 0.4, 0.5, 0.6])
+            mask = 0
+            for k in range(len(pb)):
+                if rb.random() < dens:
+                    mask |= 1 << k
+            extra_items.append((nb, edges_of_mask(nb, mask), f"{nb}:{mask}", ("quickbb", "min_fill"), False, ctx.seed))
     if ctx.thorough:
         r = ctx.rng("seven")
         p7 = pairs(7)
@@ -464,7 +477,7 @@ def run_bounded(ctx: Ctx) -> Report:
     small = [it for it in allitems if it[0] <= 8]
     csize = max(1, min(200, len(small) // (ctx.jobs * 8) + 1))
     chunks = big + [small[i:i + csize] for i in range(0, len(small), csize)]
-    if ctx.jobs > 1 and len(allitems) > 4000:      # the quick tier is ~2 s of work: forking costs more than it saves
+    if ctx.jobs > 1 and len(allitems) > 1000:      # the quick tier is ~2 s of work: forking costs more than it saves
         with mp.get_context("fork").Pool(ctx.jobs, initializer=_init_worker) as pool:
             results = pool.map(_work, chunks, chunksize=1)
     else:
